@@ -350,10 +350,17 @@ def code_load_het(path, ssel, nsel, md, zf, tb):
         return errname(e)
 
 
-def make_segments(ranges):
+def make_segments(ranges, index_mode='default'):
+    """index_mode: row labels of the segment table -- 'default' 0..n-1, 'gaps' (what a boolean-mask subset
+    leaves), 'repeated' (what pd.concat of per-arm tables leaves).  Labels are not part of the property."""
     from cnvlib.cnary import CopyNumArray as CNA
     rows = [(c, s, e, '-', 0.0) for c, s, e in ranges]
-    return CNA.from_rows(rows, ['chromosome', 'start', 'end', 'gene', 'log2'])
+    arr = CNA.from_rows(rows, ['chromosome', 'start', 'end', 'gene', 'log2'])
+    if index_mode == 'gaps':
+        arr.data.index = [2 * i + 1 for i in range(len(rows))]
+    elif index_mode == 'repeated':
+        arr.data.index = [i // 2 for i in range(len(rows))]
+    return arr
 
 
 def series_cells(x, n):
@@ -1209,7 +1216,8 @@ def stage_call(cx, source, calls):
         case = dict(cx.base, stage='do_call', sample_id=ssel, normal_id=nsel, min_depth=md, zygosity_freq=zf, ranges=ranges,
                     purity=purity)
         try:
-            out = cnv_call.do_call(make_segments(ranges), varr, method='none', purity=purity)
+            out = cnv_call.do_call(make_segments(ranges, ('default', 'gaps', 'repeated')[len(sent) % 3]), varr,
+                                   method='none', purity=purity)
             c = [fcell(x) for x in out['baf'].tolist()] if 'baf' in out else 'dest'
             if out.data[['chromosome', 'start', 'end']].values.tolist() != [list(r) for r in ranges]:
                 report(ck, 'do_call changed the segment coordinates', case, clause='C18_attached')
@@ -1480,6 +1488,63 @@ def run_corpus_entry(ck, rng, scratch, idx, entry, pend):
 # ----------------------------------------------------------------------------
 
 
+def segment_baf_regression(ck, scratch):
+    """The baf column of do_segmentation(haar, variants=...): two chromosomes with a clean log2 step and a
+    different heterozygous allele fraction on each side of it.  Each output segment must carry the median
+    mirrored frequency of the heterozygous variants inside ITS OWN range (regression input of the label
+    alignment defect repaired in /repo: the concatenated per-segment pieces repeat row labels)."""
+    import numpy as np
+    from fractions import Fraction as Fr
+    from cnvlib.cnary import CopyNumArray as CNA
+    from cnvlib import segmentation, cmdutil
+    fracs = {'chr1': (12, 18), 'chr2': (8, 16)}          # alt counts out of depth 40, first / second half
+    lines = ['##fileformat=VCFv4.2', '##contig=<ID=chr1,length=100000000>', '##contig=<ID=chr2,length=100000000>',
+             '##FORMAT=<ID=GT,Number=1,Type=String,Description="g">', '##FORMAT=<ID=AD,Number=R,Type=Integer,Description="a">',
+             '##FORMAT=<ID=DP,Number=1,Type=Integer,Description="d">',
+             '#CHROM\tPOS\tID\tREF\tALT\tQUAL\tFILTER\tINFO\tFORMAT\tT']
+    var = []
+    for c in ('chr1', 'chr2'):
+        for i in range(60):
+            a = fracs[c][0] if i < 30 else fracs[c][1]
+            pos = 1000 + i * 5000
+            lines.append('%s\t%d\t.\tA\tG\t.\tPASS\t.\tGT:AD:DP\t0/1:%d,%d:40' % (c, pos, 40 - a, a))
+            var.append((c, pos - 1, Fr(a, 40)))
+    path = os.path.join(scratch, 'segreg.vcf')
+    open(path, 'w').write('\n'.join(lines) + '\n')
+    rs = np.random.RandomState(1)
+    rows = []
+    for c in ('chr1', 'chr2'):
+        for i in range(120):
+            rows.append((c, i * 2500, i * 2500 + 2000, 'g', (0.8 if i < 60 else 0.0) + float(rs.normal(0, 0.02)), 50.0, 1.0))
+    cn = CNA.from_rows(rows, ['chromosome', 'start', 'end', 'gene', 'log2', 'depth', 'weight'], {'sample_id': 's'})
+    case = {'stage': 'do_segmentation', 'method': 'haar', 'vcf': 'two chromosomes x 60 het SNVs, allele fraction 12/40|18/40 and 8/40|16/40',
+            'bins': '2 x 120 bins with a 0.8 -> 0.0 log2 step at bin 60'}
+    try:
+        varr = cmdutil.load_het_snps(path)
+        seg = segmentation.do_segmentation(cn, 'haar', variants=varr)
+        got = [(r.chromosome, int(r.start), int(r.end), None if r.baf != r.baf else float(r.baf)) for r in seg]
+    except Exception as e:      # noqa
+        report(ck, 'do_segmentation(haar, variants) raised %s' % type(e).__name__, case, clause='C18_baf')
+        return
+    ck.count(['segreg'], nontrivial=True, cls='segment:baf-regression')
+    for c, s, e, b in got:
+        inside = sorted(min(f, 1 - f) for cc, p, f in var if cc == c and s <= p < e)
+        inside_hi = sorted(max(f, 1 - f) for cc, p, f in var if cc == c and s <= p < e)
+        if not inside:
+            exp = (None,)
+        else:
+            def med(l):
+                n = len(l)
+                return l[n // 2] if n % 2 else (l[n // 2 - 1] + l[n // 2]) / 2
+            exp = (med(inside), med(inside_hi))
+        ok = (b is None and exp == (None,)) or (b is not None and any(x is not None and abs(b - float(x)) <= 1e-9 for x in exp))
+        if not ok:
+            report(ck, 'baf of segment %s:%d-%d of do_segmentation(haar, variants) is not the mirrored median of the heterozygous '
+                       'frequencies inside it' % (c, s, e), dict(case, segments=got), code=b,
+                   expected=[None if x is None else str(x) for x in exp], clause='C18_baf/C18_attached')
+            return
+
+
 def run(ck, scratch):
     ck.rule = ('structured VCFs (1..3 samples; PEDIGREE none / one / two pairs / naming an absent sample / non-Derived lines; '
                '0..500 records on 1..3 contigs, sorted or shuffled; SNVs, insertions, deletions, ALT ".", <NON_REF>; FILTER '
@@ -1498,7 +1563,7 @@ def run(ck, scratch):
         'chromosome order of GenomicArray.sort enters the model as a rank per contig (sorter_chrom belongs to C08)',
         'float decisions: zygosity_from_freq thresholds with non-dyadic zygosity_freq within 1e-9 of a frequency are counted '
         'float_ambiguous and not compared',
-        'baf column of do_segmentation output is not exercised (same baf_by_ranges call as do_call)',
+        'baf column of do_segmentation output: one fixed regression input only (haar, two arms, a step in log2 and in allele fraction)',
         'infinite frequencies (alt count > 0 at depth 0) are compared in the reader only; BAF stages skip such tables, '
         'and TumorBoost BAF/mirroring is not compared when a normal frequency is exactly 1 (division by zero)',
         'pandas label alignment of the TumorBoost assignment is modelled as row-by-row (labels are unique after tabio.read); '
@@ -1526,6 +1591,7 @@ def run(ck, scratch):
         if (i + 1) % 100 == 0:
             pend.flush()
     pend.flush()
+    segment_baf_regression(ck, scratch)
     check_formulas(ck, rng)
     ck.extra['files'] = idx
 
